@@ -4,6 +4,10 @@ From Coq Require Import ZArith List Bool Arith Lia.
 From ExaV Require Import model.Model_WriteQueue.
 Import ListNotations.
 
+(* the discipline of the tree: both put-backs go in front (fails, with the proofs below, on a tree that appends) *)
+Lemma put_back_partial d q : put_back PARTIAL_FRONT d q = d :: q. Proof. reflexivity. Qed.
+Lemma put_back_again d q : put_back AGAIN_FRONT d q = d :: q. Proof. reflexivity. Qed.
+
 Lemma drain_keeps q : forall out budget sc q' out' dead' b' sc',
   drain q out budget sc = ((q', out', dead'), b', sc') ->
   exists lost, out' ++ lost = out ++ concat q /\ (dead' = false -> lost = concat q').
@@ -19,9 +23,10 @@ Proof.
     + destruct (length (x :: d) <=? n)%nat eqn:E.
       * apply IH in H. destruct H as (lost & H1 & H2). exists lost. split; [|exact H2].
         rewrite H1. cbn [concat]. now rewrite app_assoc.
-      * injection H as <- <- <- _ _. exists (concat (skipn n (x :: d) :: q)). split; [|reflexivity].
+      * rewrite put_back_partial in H.
+        injection H as <- <- <- _ _. exists (concat (skipn n (x :: d) :: q)). split; [|reflexivity].
         cbn [concat]. rewrite <- app_assoc. f_equal. rewrite app_assoc. now rewrite firstn_skipn.
-    + injection H as <- <- <- _ _. exists (concat ((x :: d) :: q)). split; reflexivity.
+    + rewrite put_back_again in H. injection H as <- <- <- _ _. exists (concat ((x :: d) :: q)). split; reflexivity.
     + injection H as <- <- <- _ _. exists (concat ((x :: d) :: q)). split; [reflexivity|discriminate].
     + injection H as <- <- <- _ _. exists (concat ((x :: d) :: q)). split; [reflexivity|discriminate].
 Qed.
